@@ -264,6 +264,10 @@ class Extractor:
                 edits += self._d3(toks, it, anchor.split()[1], key)
             elif a0 == "d5":
                 edits += self._d5(toks, it, anchor.split(None, 1)[1], key)
+            elif a0 == "d6":
+                edits += self._d6(toks, it, shape, key)
+            elif a0 == "d7":
+                edits += self._d7(toks, it, anchor.split()[1], key)
             elif a0 == "pub":
                 pass
             else:
@@ -405,6 +409,80 @@ class Extractor:
         if not n:
             raise LostAnchor("%s: D2 found no `for &x in`" % key)
         self.log.append("D2 %s: %d `for &x in` loop(s)" % (key, n))
+        return edits
+
+    def _d6(self, toks, it, shape, key):
+        """`for p in &E {` -> `for p in it<K>: E.iter() {`  (K = ordinal of the loop).  This is the
+        body of `impl IntoIterator for &SmallVec` (smallvec.rs: `self.iter()`) inlined, plus Verus's
+        name for the ghost iterator so that invariants can mention the position."""
+        edits, n = [], 0
+        for k, (kw, o, c) in enumerate(shape.loops, 1):
+            if toks[kw].text != "for":
+                continue
+            j = kw
+            while not (toks[j].kind == "ident" and toks[j].text == "in"):
+                j += 1
+            a = rustlex._next_sig_idx(toks, j)
+            if toks[a].text != "&":
+                continue
+            b = rustlex._next_sig_idx(toks, a)
+            if toks[b].kind == "ident" and toks[b].text == "mut":
+                continue
+            edits.append((toks[a].start, toks[a].end, "it%d: " % k, 0))
+            # end of the iterable expression = last significant token before the body `{`
+            e = o - 1
+            while toks[e].kind in ("ws", "comment"):
+                e -= 1
+            edits.append((toks[e].end, toks[e].end, ".iter()", 0))
+            n += 1
+        if not n:
+            raise LostAnchor("%s: D6 found no `for x in &E` loop" % key)
+        self.log.append("D6 %s: %d `for .. in &E` loop(s) -> `E.iter()` with named ghost iterator" % (key, n))
+        return edits
+
+    def _d7(self, toks, it, param, key):
+        """`param: impl AsRef<Self>` -> `param: &Self`, `param.as_ref()` -> `param`."""
+        po, pc = self._params_range(toks, it)
+        edits, found = [], False
+        k = po + 1
+        while k < pc:
+            if toks[k].kind == "ident" and toks[k].text == param and toks[rustlex._next_sig_idx(toks, k)].text == ":":
+                c = rustlex._next_sig_idx(toks, k)
+                ts = rustlex._next_sig_idx(toks, c)
+                # type runs to the `,` or `)` at depth 0
+                d, e = 0, ts
+                while e < pc:
+                    tx = toks[e].text
+                    if toks[e].kind == "punct" and tx in ("<", "(", "["):
+                        d += 1
+                    elif toks[e].kind == "punct" and tx in (">", ")", "]"):
+                        d -= 1
+                    elif toks[e].kind == "punct" and tx == "," and d == 0:
+                        break
+                    e += 1
+                ty = "".join(t.text for t in toks[ts:e]).strip()
+                if not re.match(r"impl\s+AsRef\s*<\s*Self\s*>(\s*\+\s*Into\s*<\s*Self\s*>)?$", ty):
+                    raise LostAnchor("%s: D7 parameter `%s` has type `%s`, not impl AsRef<Self>" % (key, param, ty))
+                last = e - 1
+                while toks[last].kind in ("ws", "comment"):
+                    last -= 1
+                edits.append((toks[ts].start, toks[last].end, "&Self", 0))
+                found = True
+                break
+            k += 1
+        if not found:
+            raise LostAnchor("%s: D7 parameter `%s` not found" % (key, param))
+        n = 0
+        for j in range(it.body_open + 1, it.body_close):
+            if toks[j].kind == "ident" and toks[j].text == param:
+                a = rustlex._next_sig_idx(toks, j)
+                b = rustlex._next_sig_idx(toks, a)
+                c = rustlex._next_sig_idx(toks, b)
+                d = rustlex._next_sig_idx(toks, c)
+                if toks[a].text == "." and toks[b].text == "as_ref" and toks[c].text == "(" and toks[d].text == ")":
+                    edits.append((toks[a].start, toks[d].end, "", 0))
+                    n += 1
+        self.log.append("D7 %s: `%s: impl AsRef<Self>` -> `&Self` (%d `.as_ref()` dropped)" % (key, param, n))
         return edits
 
     def _d3(self, toks, it, name, key):
@@ -596,7 +674,7 @@ class Extractor:
         edits = []
         ds = self._decl_start_idx(toks, it)
         if toks[ds].text != "pub":
-            edits.append((toks[ds].start, toks[ds].start, "pub ", 0))
+            edits.append((toks[ds].start, toks[ds].start, "pub ", 10 ** 6))
         if it.kind == "struct" and it.body_open is not None:
             k = it.body_open + 1
             expect_field = True
